@@ -146,6 +146,7 @@ def property_anchors(prop):
     return names & known
 
 
+RENAMED_FIELDS = {}
 REQUESTED_MISSING = set()   # functions of the reference tree that a rule asked for during this run and that are not defined now
 _KNOWN = None
 
